@@ -7,7 +7,7 @@
                               get_bits = const_bitspan{data, capacity/8, off}.getU<std_width w>(w)
    Side conditions as for C (InstancesC.v): whole-byte buffer addressable by a size_t, at most 64 bits per access, cursor below
    |buffer| + tsz t < 2^64. *)
-From Verif Require Import Bits CPrims CPrimsThm CppPrims CppPrimsThm CppPrimsMoreThm.
+From Verif Require Import Bits CPrims CPrimsThm CppPrims CppPrimsThm CppPrimsMoreThm PrimsCur.
 From Verif Require Import Wire WireThm WireThmExt Walker PrimsOn InstancesBase WalkerBound RefineDes RefineSerBits RefineSerBase RefineSer InstancesC.
 Local Open Scope nat_scope.
 
@@ -18,7 +18,7 @@ Definition cpp_span (buf : list bool) (size_bytes off : nat) : span :=
 
 Definition cpp_set_bits (zv : bool) (buf : list bool) (off : nat) (v : list bool) : option (list bool) :=
   let s := cpp_span buf (length (bytes_of_bits buf)) off in
-  match (if zv && all_zero v then setZeros s (N.of_nat (length v)) else cpp_set_uxx s (N_of_bits v) (N.of_nat (length v))) with
+  match (if zv && all_zero v then setZeros s (N.of_nat (length v)) else cpp_set_uxx_cur s (N_of_bits v) (N.of_nat (length v))) with
   | Some (inl r) => Some (bits_of_bytes r)
   | _ => None
   end.
@@ -90,8 +90,10 @@ Proof.
       rewrite Ez. symmetry. apply nth_repeat.
   - (* setUxx = nunavutSetUxx (any/big rendering) *)
     destruct (cpp_members_are_c_b _ Hok) as (Hs & _).
+    rewrite cpp_set_uxx_cur_is_old by (cbn [sp_off sp_size cpp_span]; rewrite ?Hbl; lia).
     rewrite Hs by (cbn [sp_off cpp_span]; apply N.ltb_lt; lia).
     cbn [sp_data sp_size sp_off cpp_span].
+    rewrite <- set_uxx_cur_is_old by (rewrite ?Hbl; lia).
     exact (c_set_law false L HLm HL buf off v Hl H64 Hfit).
 Qed.
 
